@@ -19,7 +19,12 @@ _FN = lambda x: RESP(x) and mentions_field(x, "function") and not mentions(x, la
 # "this fragment is a solicited response": is_unsolicited() == false, or the equivalent variant test on header.function
 UNSOL = g_any(g_bool(lambda x: mentions_call(x, r"ResponseFunction::is_unsolicited$") and RESP(x), False), g_is(_FN, "Response"), lambda g: g.kind == "isnot" and _FN(g.a) and "UnsolicitedResponse" in g.name)
 SRC = g_rel("Eq", lambda x: mentions_name(x, "source") and mentions_field(x, "link"), lambda x: mentions_name(x, "destination") and mentions_field(x, "link"))
-SEQ = g_rel("Eq", lambda x: RESP(x) and mentions_field(x, "seq"), lambda x: x in (("capture", "seq"), ("param", "seq")))
+def _expected(name):
+    """The caller-supplied expectation `name`: the parameter itself, or that field of a parameter that bundles the expectations."""
+    return lambda x: x in (("capture", name), ("param", name)) or (x[0] == "field" and x[2] == name and x[1][0] in ("capture", "param") and x[1][1] != "response")
+
+
+SEQ = g_rel("Eq", lambda x: RESP(x) and mentions_field(x, "seq"), _expected("seq"))
 IIN = g_bool(lambda x: mentions_call(x, r"Iin::has_bad_request_error$") and RESP(x), False)
 
 
@@ -53,7 +58,7 @@ def r2(ctx):
     pr = call_sites(bd, r"ReadTask::process_response$")
     if len(pr) != 1:
         raise AnchorError("process_read_response: process_response call")
-    first = lambda x: x in (("capture", "is_first"), ("param", "is_first"))
+    first = _expected("is_first")
     fld = lambda f: (lambda x: x[0] == "field" and x[2] == f and RESP(x))
     # the two FIR tests are `fir && !is_first` -> Err and `!fir && is_first` -> Err; on the accepting path their negations hold
     ctx.require_guards(bd, pr[0].idx, [
@@ -122,7 +127,7 @@ def r3(ctx):
                 # fragment that is then rejected tells the outstation to release events the handler never saw
                 ctx.require_guards(bd, c.idx, [("objects parsed (?)", g_is(lambda x: mentions_field(x, "objects") and RESP(x), "Continue"))], "confirm:%s:accepted" % name, "confirm_solicited")
             e = sym.call_expr(c.term)
-            ctx.check(e[2][3] in (("capture", "seq"), ("param", "seq")), "confirm:%s:seq" % name, "confirms with the matched sequence number (%s)" % expr_str(e[2][3]), bd.where(c.idx), bad_detail="confirm_solicited(seq = %s)" % expr_str(e[2][3]))
+            ctx.check(_expected("seq")(e[2][3]), "confirm:%s:seq" % name, "confirms with the matched sequence number (%s)" % expr_str(e[2][3]), bd.where(c.idx), bad_detail="confirm_solicited(seq = %s)" % expr_str(e[2][3]))
             ctx.check(e[2][2] in (("capture", "destination"), ("param", "destination")), "confirm:%s:dest" % name, "confirm goes to the addressed outstation", bd.where(c.idx))
             # on the CON edge, acceptance completes only through the confirm
             g = [g for g in ctx.guards_at(bd, c.idx) if con(g)]
@@ -248,17 +253,34 @@ def r6(ctx):
     region = region_of(bd, arms[0])
     inc = [b for b in call_sites(bd, r"Association::increment_seq$") if b.idx in region]
     ctx.check(len(inc) == 1, "read-next:increment_seq", "the next fragment is expected with association.increment_seq()", bd.where(arms[0].edge[1]))
-    sl = bd.local_by_name("seq")
-    d = [(blk, sym.def_expr(blk, si)) for l in sl for blk, si in bd.defs.get(l, [])]
+    # the expectation handed to process_read_response: the variables `seq` / `is_first`, or one variable holding a struct with those
+    # fields - either way: what each assignment stores, and where
+    calls = call_sites(bd, r"MasterSession::process_read_response$")
+    argvars = []
+    for c_ in calls:
+        for a_ in sym.call_expr(c_.term)[2]:
+            if a_[0] == "var" and a_ not in argvars:
+                argvars.append(a_)
+    d, d2 = [], []
+    for v in argvars:
+        for l in bd.local_by_name(v[1]):
+            for blk, si in bd.defs.get(l, []):
+                e = sym.def_expr(blk, si)
+                if v[1] == "seq":
+                    d.append((blk, e))
+                elif v[1] == "is_first":
+                    d2.append((blk, e))
+                elif e[0] == "agg":
+                    if agg_field(e, "seq") is not None:
+                        d.append((blk, agg_field(e, "seq")))
+                    if agg_field(e, "is_first") is not None:
+                        d2.append((blk, agg_field(e, "is_first")))
     ctx.check(any(blk in region and mentions_call(e, r"increment_seq$") for blk, e in d), "read-next:seq<-increment", "seq := increment_seq() in the ReadNext arm", bd.where(arms[0].edge[1]))
-    fl = bd.local_by_name("is_first")
-    d2 = [(blk, sym.def_expr(blk, si)) for l in fl for blk, si in bd.defs.get(l, [])]
     ctx.check(any(blk in region and const_value(prog, e) == 0 for blk, e in d2) and any(const_value(prog, e) == 1 and blk not in region for blk, e in d2), "read-next:is_first", "is_first starts true and is cleared in the ReadNext arm", bd.where(arms[0].edge[1]))
-    for c in call_sites(bd, r"MasterSession::process_read_response$"):
-        e = sym.call_expr(c.term)
-        ctx.check(e[2][2] == ("var", "is_first") and e[2][3] == ("var", "seq"), "read:args", "process_read_response(dest, is_first, seq, ..)", bd.where(c.idx))
+    for c_ in calls:
+        ctx.check(bool(d) and bool(d2), "read:args", "process_read_response(dest, <is_first, seq as assigned above>, ..)", bd.where(c_.idx))
     # first seq from send_request
-    ctx.check(any(mentions_call(e, r"MasterSession::send_request$") for _, e in d), "read:first-seq", "the first expected seq is the one sent", bd.where(line=bd.line))
+    ctx.check(any(mentions_call(e, r"MasterSession::send_request$") and blk not in region for blk, e in d), "read:first-seq", "the first expected seq is the one sent", bd.where(line=bd.line))
     # extraction bracket
     eb = prog.abody("master::extract::extract_measurements")
     bg = call_sites(eb, r"ReadHandler::begin_fragment$")
